@@ -877,6 +877,8 @@ func installedCaps(c *core.Ctx, m *jsonModel, s *core.Sink) []int64 {
 									stores++
 									if k, ok := core.ConstInt(st.Val); ok {
 										val = k
+									} else if q := overwriteTarget(x); q != nil && carriesCap(m, st.Val, q) {
+										val = 0 // temporary of *q = state{cap: q.cap, ...}: the cap is carried over
 									} else {
 										val = -1
 									}
@@ -884,7 +886,9 @@ func installedCaps(c *core.Ctx, m *jsonModel, s *core.Sink) []int64 {
 							}
 						}
 					}
-					if stores == 1 && val > 0 {
+					if stores == 1 && val == 0 {
+						s.OK(key, c.Pos(x.Pos()), "temporary for an overwrite that carries the existing cap over")
+					} else if stores == 1 && val > 0 {
 						s.OK(key, c.Pos(x.Pos()), fmt.Sprintf("cap %s = %d", m.fieldName(m.capF), val))
 						if !seen[val] {
 							seen[val] = true
@@ -895,13 +899,40 @@ func installedCaps(c *core.Ctx, m *jsonModel, s *core.Sink) []int64 {
 					}
 				case *ssa.Store:
 					if fa, ok := x.Addr.(*ssa.FieldAddr); ok && fa.Field == m.capF && m.isState(fa.X.Type()) {
-						if _, isAlloc := fa.X.(*ssa.Alloc); !isAlloc {
+						if _, isAlloc := fa.X.(*ssa.Alloc); !isAlloc && !restoresCap(m, x, fa.X) {
 							s.Bad(fmt.Sprintf("%s: store to cap", core.FName(f)), c.Pos(x.Pos()), "the recursion cap is overwritten after construction")
 						}
 					}
 					// whole-struct overwrite (*p = parserState{...}) of an existing state
 					if m.isState(x.Addr.Type()) {
-						if _, isAlloc := x.Addr.(*ssa.Alloc); !isAlloc {
+						carried := false
+						if ld, ok := x.Val.(*ssa.UnOp); ok && ld.Op == token.MUL {
+							if tmp, ok := ld.X.(*ssa.Alloc); ok && overwriteTarget(tmp) == x.Addr {
+								for _, r := range *tmp.Referrers() {
+									if fa, ok := r.(*ssa.FieldAddr); ok && fa.Field == m.capF {
+										for _, r2 := range *fa.Referrers() {
+											if st, ok := r2.(*ssa.Store); ok && carriesCap(m, st.Val, x.Addr) {
+												carried = true
+											}
+										}
+									}
+								}
+							}
+						}
+						if k, ok := x.Val.(*ssa.Const); ok && k.Value == nil {
+							// in-place form: *q = zero; q.cap = <q.cap loaded before>
+							seenX := false
+							for _, in2 := range b.Instrs {
+								if in2 == ssa.Instruction(x) {
+									seenX = true
+								} else if st2, ok := in2.(*ssa.Store); ok && seenX {
+									if fa2, ok := st2.Addr.(*ssa.FieldAddr); ok && fa2.Field == m.capF && fa2.X == x.Addr && restoresCap(m, st2, x.Addr) {
+										carried = true
+									}
+								}
+							}
+						}
+						if _, isAlloc := x.Addr.(*ssa.Alloc); !isAlloc && !carried {
 							s.Bad(fmt.Sprintf("%s: scanner state overwritten wholesale", core.FName(f)), c.Pos(x.Pos()), "an existing (pooled) scanner state is overwritten as a whole: the recursion cap installed by the pool constructor is lost and the guard's cap==0 escape disables the depth limit for later detections")
 						}
 					}
@@ -913,6 +944,67 @@ func installedCaps(c *core.Ctx, m *jsonModel, s *core.Sink) []int64 {
 		s.Bad("construction of scanner state", "-", "no construction of the pooled scanner state found")
 	}
 	return caps
+}
+
+// overwriteTarget: tmp is the non-escaping temporary of `*q = T{...}` (only
+// field stores and one whole load that is stored to q); returns q.
+func overwriteTarget(tmp *ssa.Alloc) ssa.Value {
+	if tmp.Heap {
+		return nil
+	}
+	var q ssa.Value
+	for _, r := range *tmp.Referrers() {
+		switch x := r.(type) {
+		case *ssa.FieldAddr:
+			for _, r2 := range *x.Referrers() {
+				if st, ok := r2.(*ssa.Store); !ok || st.Addr != ssa.Value(x) {
+					return nil
+				}
+			}
+		case *ssa.UnOp:
+			refs := *x.Referrers()
+			if x.Op != token.MUL || len(refs) != 1 || q != nil {
+				return nil
+			}
+			st, ok := refs[0].(*ssa.Store)
+			if !ok || st.Val != ssa.Value(x) {
+				return nil
+			}
+			q = st.Addr
+		case *ssa.DebugRef:
+		default:
+			return nil
+		}
+	}
+	return q
+}
+
+// restoresCap: st writes to q's cap field the value that field held on entry
+// to st's block (loaded before any store in the block that could change it).
+func restoresCap(m *jsonModel, st *ssa.Store, q ssa.Value) bool {
+	if !carriesCap(m, st.Val, q) {
+		return false
+	}
+	ld := st.Val.(*ssa.UnOp)
+	if ld.Block() != st.Block() {
+		return false
+	}
+	for _, in := range st.Block().Instrs {
+		if in == ssa.Instruction(ld) {
+			return true
+		}
+		switch in.(type) {
+		case *ssa.Store, ssa.CallInstruction:
+			return false
+		}
+	}
+	return false
+}
+
+// carriesCap: v is a load of q's cap field.
+func carriesCap(m *jsonModel, v ssa.Value, q ssa.Value) bool {
+	base, fld, ok := core.LoadOfField(v)
+	return ok && fld == m.capF && base == q
 }
 
 func findCycle(adj map[*ssa.Function][]*ssa.Function) string {
@@ -1010,6 +1102,9 @@ var ruleParseResults = &core.Rule{ID: "R08.3", Min: 4,
 					if core.IsConstInt(st.Val, 0) && g == m.reset {
 						okInc = true
 					}
+					if _, bulk := bulkSettlements(m, g, ibF)[st]; bulk {
+						okInc = true // the amounts are R08.6's
+					}
 					s.Check(okInc, key, c.Pos(st.Pos()), "+1 per inspected byte (or reset to 0)", "the inspected-bytes counter is changed other than by +1 per byte looked at")
 				}
 			}
@@ -1034,32 +1129,7 @@ var ruleAccounting = &core.Rule{ID: "R08.6", Min: 18,
 			core.Bail("inspected-bytes field not identified")
 		}
 		for _, f := range m.famList {
-			// chain: int values flowing into the returned count
-			chain := map[ssa.Value]bool{}
-			var mark func(v ssa.Value)
-			mark = func(v ssa.Value) {
-				if v == nil || chain[v] || !core.IsInteger(v.Type()) {
-					return
-				}
-				switch x := v.(type) {
-				case *ssa.Phi:
-					chain[v] = true
-					for _, e := range x.Edges {
-						mark(e)
-					}
-				case *ssa.BinOp:
-					if x.Op == token.ADD {
-						chain[v] = true
-						mark(x.X)
-						mark(x.Y)
-					}
-				case *ssa.Parameter:
-					chain[v] = true
-				}
-			}
-			for _, r := range core.Returns(f) {
-				mark(r.Results[0])
-			}
+			chain := countChain(f)
 			// range-over-literal idiom: return len(X) after a full range over parameter X
 			exempt := map[*ssa.BasicBlock]bool{}
 			for _, r := range core.Returns(f) {
@@ -1089,6 +1159,19 @@ var ruleAccounting = &core.Rule{ID: "R08.6", Min: 18,
 					}
 					s.Check(okIdiom, f.Name()+": literal scanner counts one inspected byte per matched byte", c.Pos(r.Pos()), "range over the literal, one increment per iteration, returns len(literal)", "the literal scanner's inspected-byte count does not match the length it returns")
 				}
+			}
+			// deferred form: the loop only counts, one store adds the count afterwards
+			bulkInc := map[*ssa.BinOp]bool{}
+			for st, body := range bulkSettlements(m, f, ibF) {
+				k := st.Val.(*ssa.BinOp).Y
+				for lb := range body {
+					for _, li := range lb.Instrs {
+						if ad, ok := li.(*ssa.BinOp); ok && ad.Op == token.ADD && ad.X == k && core.IsConstInt(ad.Y, 1) {
+							bulkInc[ad] = true
+						}
+					}
+				}
+				s.OK(f.Name()+": deferred inspected-byte settlement", c.Pos(st.Pos()), "counter 0,+1 per byte; one ib += counter dominating every return")
 			}
 			// straight-line regions: maximal chains of blocks linked by single-successor / single-predecessor jumps
 			region := map[*ssa.BasicBlock]*ssa.BasicBlock{}
@@ -1126,7 +1209,7 @@ var ruleAccounting = &core.Rule{ID: "R08.6", Min: 18,
 				a.ib += int64(ibIncrements(m, b, ibF))
 				for _, in := range b.Instrs {
 					bo, ok := in.(*ssa.BinOp)
-					if !ok || bo.Op != token.ADD || !chain[bo] {
+					if !ok || bo.Op != token.ADD || !chain[bo] || bulkInc[bo] {
 						continue
 					}
 					if kx, okx := core.ConstInt(bo.X); okx {
@@ -1174,6 +1257,120 @@ var ruleAccounting = &core.Rule{ID: "R08.6", Min: 18,
 		}
 	}}
 
+// countChain: the int values that flow (through phis and additions) into the consumed-bytes count f returns.
+func countChain(f *ssa.Function) map[ssa.Value]bool {
+	chain := map[ssa.Value]bool{}
+	var mark func(v ssa.Value)
+	mark = func(v ssa.Value) {
+		if v == nil || chain[v] || !core.IsInteger(v.Type()) {
+			return
+		}
+		switch x := v.(type) {
+		case *ssa.Phi:
+			chain[v] = true
+			for _, e := range x.Edges {
+				mark(e)
+			}
+		case *ssa.BinOp:
+			if x.Op == token.ADD {
+				chain[v] = true
+				mark(x.X)
+				mark(x.Y)
+			}
+		case *ssa.Parameter:
+			chain[v] = true
+		}
+	}
+	for _, r := range core.Returns(f) {
+		if len(r.Results) > 0 {
+			mark(r.Results[0])
+		}
+	}
+	return chain
+}
+
+// bulkSettlements recognises the deferred form of inspected-byte accounting:
+// a loop counts consumed bytes in a counter k = phi[0, k+1] that is part of
+// the returned count, touches neither the inspected counter nor another
+// scanner and has no return inside, and one store ib = ib + k outside any
+// loop dominates every return the loop can reach. The result maps each such
+// store to the blocks of its loop.
+func bulkSettlements(m *jsonModel, f *ssa.Function, ibF int) map[*ssa.Store]map[*ssa.BasicBlock]bool {
+	out := map[*ssa.Store]map[*ssa.BasicBlock]bool{}
+	chain := countChain(f)
+	for _, b := range f.Blocks {
+		for _, in := range b.Instrs {
+			st, ok := in.(*ssa.Store)
+			if !ok {
+				continue
+			}
+			fa, ok := st.Addr.(*ssa.FieldAddr)
+			if !ok || fa.Field != ibF || !m.isState(fa.X.Type()) {
+				continue
+			}
+			bo, ok := st.Val.(*ssa.BinOp)
+			if !ok || bo.Op != token.ADD {
+				continue
+			}
+			b2, f2, isLd := core.LoadOfField(bo.X)
+			if !isLd || f2 != ibF || b2 != fa.X {
+				continue
+			}
+			k, ok := bo.Y.(*ssa.Phi)
+			if !ok || !chain[k] {
+				continue
+			}
+			h := k.Block()
+			okPhi, nBack := true, 0
+			for i, p := range h.Preds {
+				if h.Dominates(p) {
+					nBack++
+					inc, ok := k.Edges[i].(*ssa.BinOp)
+					if !ok || inc.Op != token.ADD || inc.X != ssa.Value(k) || !core.IsConstInt(inc.Y, 1) {
+						okPhi = false
+					}
+				} else if !core.IsConstInt(k.Edges[i], 0) {
+					okPhi = false
+				}
+			}
+			if !okPhi || nBack == 0 {
+				continue
+			}
+			body := loopBlocks(h)
+			okBody := !body[b] && !reachSelf(b)
+			for lb := range body {
+				if retOf(lb) != nil {
+					okBody = false
+				}
+				for _, li := range lb.Instrs {
+					if s2, ok := li.(*ssa.Store); ok {
+						if fa2, ok := s2.Addr.(*ssa.FieldAddr); ok && fa2.Field == ibF && m.isState(fa2.X.Type()) {
+							okBody = false
+						}
+					}
+					if ci, ok := li.(ssa.CallInstruction); ok {
+						if g := ci.Common().StaticCallee(); g != nil && m.fam[g] {
+							okBody = false
+						}
+					}
+					if ad, ok := li.(*ssa.BinOp); ok && ad.Op == token.ADD && chain[ad] && !(ad.X == ssa.Value(k) && core.IsConstInt(ad.Y, 1)) {
+						okBody = false
+					}
+				}
+			}
+			for _, r := range core.Returns(f) {
+				if core.Reach(h)[r.Block()] && !b.Dominates(r.Block()) {
+					okBody = false
+				}
+			}
+			if okBody {
+				out[st] = body
+			}
+		}
+	}
+	return out
+}
+
 func ibIncrements(m *jsonModel, b *ssa.BasicBlock, ibF int) int {
 	n := 0
 	for _, in := range b.Instrs {
@@ -1190,4 +1387,14 @@ func ibIncrements(m *jsonModel, b *ssa.BasicBlock, ibF int) int {
 		}
 	}
 	return n
+}
+
+// reachSelf: b lies on a cycle.
+func reachSelf(b *ssa.BasicBlock) bool {
+	for _, s := range b.Succs {
+		if core.Reach(s)[b] {
+			return true
+		}
+	}
+	return false
 }
